@@ -66,8 +66,8 @@ def eval_args(st, n):
     for kw in n.keywords:
         if kw.arg is None:
             kv = E.ev(st, kw.value)
-            if kv.t.kind == 'kwargs':
-                continue          # assumed-empty **kwargs pass-through
+            if kv.t.kind in ('kwargs', 'union', 'dict'):
+                continue          # **kwargs pass-through: assumed not to influence the contract
             raise Undecided('**kwargs call')
         kwargs[kw.arg] = E.ev(st, kw.value)
     return args, kwargs
@@ -94,6 +94,8 @@ def apply_value(st, fv, args, kwargs, n=None):
         params, body, _ = R.PREDICATES[f.name]
         env = dict(zip(params, args))
         return E.eval_spec(st, body, env) if not st.spec else _eval_in(st, body, env)
+    if f.kind == 'noop':
+        return E.NONE_VAL()
     if f.kind == 'builtin_method':
         return call_builtin_method(st, f.recv, f.name, args, kwargs)
     if f.kind == 'bound':
@@ -1285,6 +1287,10 @@ def _decode(st, recv, args, kw):
     text is an uninterpreted function of the bytes (identity on ASCII is not needed by the contracts)."""
     ok = z3.Function('py_decodable', z3.StringSort(), z3.BoolSort())
     dec = z3.Function('py_decode', z3.StringSort(), z3.StringSort())
+    if len(args) > 1:
+        # errors='replace' / 'ignore': never raises
+        dec2 = z3.Function('py_decode_lenient', z3.StringSort(), z3.StringSort())
+        return Val(T.STR, dec2(recv.z))
     if not st.spec:
         E.check_or_raise(st, ok(recv.z), 'UnicodeDecodeError')
     return Val(T.STR, dec(recv.z))
@@ -1330,3 +1336,45 @@ def bi_in_timeout_scope(st, args, kw):
 
 
 _BUILTINS['in_timeout_scope'] = bi_in_timeout_scope
+
+
+@_strm('rstrip')
+def _rstrip(st, recv, args, kw):
+    f = z3.Function('py_rstrip', z3.StringSort(), z3.StringSort())
+    r = f(recv.z)
+    # rstrip returns a prefix of the string (no longer than it)
+    st.assume(z3.And(z3.PrefixOf(r, recv.z)))
+    return Val(recv.t, r)
+
+
+@_strm('lstrip')
+def _lstrip(st, recv, args, kw):
+    f = z3.Function('py_lstrip', z3.StringSort(), z3.StringSort())
+    r = f(recv.z)
+    st.assume(z3.SuffixOf(r, recv.z))
+    return Val(recv.t, r)
+
+
+def _py_join(st, args):
+    sep, items = args[0], args[1]
+    its = E.tuple_items(st, items)
+    if its is None:
+        s, et = B.seq_of(st, items)
+        f = z3.Function('py_join_seq_' + T.sort_name(T.sort_of(et)), z3.StringSort(),
+                        z3.ArraySort(I, T.sort_of(et)), I, z3.StringSort())
+        return Val(sep.t, f(sep.z, s.arr, s.n))
+    out = None
+    for it in its:
+        if it.t.kind == 'union':
+            it = E.concretize(st, it)
+        if it.t.kind != sep.t.kind:
+            if st.spec:
+                raise Undecided('join of mismatched types in spec')
+            E.raise_exc(st, 'TypeError')
+        out = it.z if out is None else z3.Concat(out, sep.z, it.z)
+    if out is None:
+        out = z3.StringVal('')
+    return Val(sep.t, out)
+
+
+SPECFUNS['py_join'] = _py_join
